@@ -1,5 +1,5 @@
 """which contract modules exist, and per property: claimed level, assumptions, bounded stand-ins"""
-MODULES = ['contracts.c19_boxes', 'contracts.c01_membership', 'contracts.c04_bbox', 'contracts.c15_motions', 'contracts.c02_masks', 'contracts.c17_validation']
+MODULES = ['contracts.c19_boxes', 'contracts.c01_membership', 'contracts.c04_bbox', 'contracts.c15_motions', 'contracts.c02_masks', 'contracts.c17_validation', 'contracts.c16_values', 'contracts.c20_pixcoord']
 
 A_PY = 'A-PY: CPython semantics of the modelled subset (ints exact, dict/list/str methods, left-to-right evaluation)'
 A_REAL = 'A-REAL: floats are treated as real numbers (no rounding, no overflow)'
@@ -35,4 +35,11 @@ PROPERTIES = {
                 assumptions=[A_PY, A_REAL, A_NUMPY, A_UNITS,
                              'the catalogue of candidate values is a finite set of kinds; numeric kinds are symbolic (all reals / ints), the rest concrete representatives',
                              'interleavings of assignments: each assignment is verified from an arbitrary well-formed state, so sequences follow by induction']),
+    'C16': dict(level='proof', trusted=[A_PY, A_REAL, A_NUMPY, A_UNITS, 'copy.deepcopy returns a structurally equal, disjoint object graph (A-PY)',
+                                        'numpy.allclose(a, b) is all(|a-b| <= 1e-8 + 1e-5 |b|)', 'Quantity/SkyCoord equality as modelled (frame mismatch raises TypeError)'],
+                assumptions=[A_PY, A_REAL, A_NUMPY, A_UNITS,
+                             'independence of a copy is proved as freshness (no shared mutable component, including nested list entries) under the assumed deepcopy contract',
+                             'the 1e-5 relative tolerance is specified as a band: positions within 1e-5 relative of both values must compare equal, positions further apart than 1e-8 + 1e-5 max must compare unequal']),
+    'C20': dict(level='proof', trusted=[A_PY, A_REAL, A_TRIG, A_NUMPY, A_UNITS, 'A-WCS: pixel_to_world/world_to_pixel of a WCS are inverse functions for equal (origin, mode); origin 1 = origin 0 + 1 (externals/wcs_model.py)'],
+                assumptions=[A_PY, A_REAL, A_TRIG, A_NUMPY, A_UNITS, 'broadcasting is verified for the shape pairs scalar/1-D/2-D/size-1 listed in the contract; boolean/integer-array fancy indexing is delegated to numpy and not modelled']),
 }
